@@ -88,6 +88,14 @@ class Check:
                 if not re.fullmatch(rx, str(sig.get(field, '')), re.S):
                     ok = False
                     break
+            if ok and 'witness_language' in k:
+                w = sig.get('witness')
+                if w is None:
+                    ok = False
+                else:
+                    if isinstance(w, bytes):
+                        w = w.decode('latin-1')
+                    ok = re.fullmatch(k['witness_language'], w, re.S) is not None
             if ok:
                 return k
         return None
